@@ -114,7 +114,9 @@ def ensure(w: dict) -> dict:
         if os.getpid() == pid:
             shutil.rmtree(d, ignore_errors=True)
 
-    atexit.register(_cleanup)
+    from .. import core as _core
+
+    _core.at_exit(_cleanup)
     return w["pki"]
 
 
